@@ -14,13 +14,25 @@ def run(pid, tier, replay=None):
         "coefficients and inputs are small integers (alpha = k/8 for the RC filters), so every intermediate value is an exact integer/dyadic rational in double arithmetic and equality is demanded",
         "coefficient generators: alpha = f(fc, ts) judged on order-preserving codes of the doubles for fc*ts = 10^e, e = -20..20 (strict interior required for |e| <= 12)",
     ]
-    consts = ["CONSTANTS Coefs <- %s" % ("CoefsQ" if q else "CoefsT"), " Inputs <- %s" % ("InputsQ" if q else "InputsT"),
-              " MaxOrder = %d" % 2, " HistLen = %d" % (4 if q else 5), " Alphas = {0, 1, 3, 4, 7, 8}"]
-    cfg = vlib.write_cfg(sc.path("filt.cfg"), consts + ["INIT Init", "NEXT Next", "INVARIANT Inv", "INVARIANT FiltInv", "ACTION_CONSTRAINT Emit", "CHECK_DEADLOCK FALSE"])
+    # (coefficient set, input set, highest order, history length): thorough = wider sets at order <= 2, and order 3 over the quick sets
+    runs = [("CoefsQ", "InputsQ", 2, 4)] if q else [("CoefsT", "InputsT", 2, 4), ("CoefsQ", "InputsQ", 3, 5)]
     out = sc.path("filt.out")
-    res = tlc(os.path.join(SPECDIR, "FiltersMC.tla"), cfg, sc, timeout=2400, heap="12g", capture_prefix="9090909", stdout_path=out)
-    tlc_must_pass(res, "FiltersMC")
-    ck.add_tlc(res, "design_delay_lines_realise_definition_LTI")
+    open(out, "w").close()
+
+    def one(item):
+        i, (cs, ins, mo, hl) = item
+        consts = ["CONSTANTS Coefs <- %s" % cs, " Inputs <- %s" % ins, " MaxOrder = %d" % mo, " HistLen = %d" % hl, " Alphas = {0, 1, 3, 4, 7, 8}"]
+        cfg = vlib.write_cfg(sc.path("filt%d.cfg" % i), consts + ["INIT Init", "NEXT Next", "INVARIANT Inv", "INVARIANT FiltInv", "ACTION_CONSTRAINT Emit", "CHECK_DEADLOCK FALSE"])
+        o = sc.path("filt%d.out" % i)
+        res = tlc(os.path.join(SPECDIR, "FiltersMC.tla"), cfg, sc, timeout=3000, heap="12g", capture_prefix="9090909", stdout_path=o, workers=8, tag="r%d" % i)
+        tlc_must_pass(res, "FiltersMC run %d" % i)
+        return res, o
+    for res, o in vlib.parallel(one, list(enumerate(runs)), par=2):
+        ck.add_tlc(res, "design_delay_lines_realise_definition_LTI")
+        with open(out, "a") as fo, open(o) as fi:
+            for line in fi:
+                fo.write(line)
+        os.remove(o)
     exe = vlib.cc_build(sc.path("filt_h"), [os.path.join(vlib.HARNESS, "filt_h.c")] + vlib.repo_src("tf.c", "math.c", "a.c"), sc)
     r = vlib.run_harness([exe, out, sc.path("g"), "14"], timeout=1800)
     m = re.search(r"^SUMMARY (\{.*\})$", r.stdout or "", re.M)
@@ -42,6 +54,6 @@ def run(pid, tier, replay=None):
     ck.cov["distinct_nontrivial"] = summ["tf_cases"]
     with open(files[0]) as fh:
         ck.sample(json.loads(fh.readline()))
-    ck.cov["rule"] = ("one case = one (numerator, denominator, input history) of the TLC enumeration (orders 0..2, coefficients and inputs from small integer sets, history length %d), "
-                      "run on the real a_tf from zero state, again after zeroing, with the input delayed and scaled; the RC filters for alpha = k/8 on every history" % (4 if q else 5))
+    ck.cov["rule"] = ("one case = one (numerator, denominator, input history) of the TLC enumeration (%s), "
+                      "run on the real a_tf from zero state, again after zeroing, with the input delayed and scaled; the RC filters for alpha = k/8 on every history" % ("orders 0..2, 3 coefficient and 3 input values, history length 4" if q else "orders 0..2 over 5 coefficient and 5 input values with history length 4; orders 0..3 over 3 values with history length 5"))
     return ck.finish(exhaustive=not ck.violations)
